@@ -294,6 +294,34 @@ class Emitter:
         raise Unsupported(f"emit {tag}")
 
 
+# --- x4: canonical order of an alternation of literal words ------------------------------------------------------
+# Two literal alternatives of which neither is a prefix of the other can never both match at one position, so their
+# relative order inside `(w1|w2|…)` is unobservable (for `match`, `search` and with any continuation: at every start
+# position the alternatives that match form a chain under "is a prefix of", and the engine tries that chain in source
+# order).  A maintainer reordering such alternatives therefore changes nothing; the translators emit the words in the
+# *reference* order below whenever the source order is a permutation of it that keeps every prefix-related pair in
+# the same relative order, and in source order otherwise (so a semantic reordering, e.g. `<|<=`, still shows).
+REFERENCE_WORD_ORDER = {
+    "specifier-operators": ["~=", "==", "!=", "<=", ">=", "<", ">", "==="],
+    "pre-keywords": ["alpha", "beta", "preview", "pre", "a", "b", "c", "rc"],
+    "post-keywords": ["post", "rev", "r"],
+}
+
+
+def canonical_word_order(words, reference):
+    """-> the permutation (list of indices into `words`) to emit: reference order when provably equivalent, else identity"""
+    ident = list(range(len(words)))
+    if len(set(words)) != len(words) or sorted(words) != sorted(reference):
+        return ident
+    pos = {w: i for i, w in enumerate(words)}
+    ref = {w: i for i, w in enumerate(reference)}
+    for a in words:
+        for b in words:
+            if a != b and (a.startswith(b) or b.startswith(a)) and (pos[a] < pos[b]) != (ref[a] < ref[b]):
+                return ident
+    return [pos[w] for w in reference]
+
+
 def _member_fn(ranges):
     import bisect
     los = [r[0] for r in ranges]
@@ -337,6 +365,8 @@ def translate_regex(name, pattern: re.Pattern, kind_fn, mode="search"):
                                        em.alt([em.emit_list(f) for f in ok_forms]), em.emit_list(after)])))
         if len(alts) > 8:
             raise Unsupported("more than 8 operators")
+        perm = canonical_word_order([w for w, _ in alts], REFERENCE_WORD_ORDER["specifier-operators"])      # x4
+        alts = [alts[i] for i in perm]
         extra = "def nOps : Nat := %d\n" % len(alts)
         extra += "def opNames : List String := [%s]\n" % ", ".join('"%s"' % w for w, _ in alts)
         for i in range(8):
